@@ -47,12 +47,14 @@ Resolve(rel)    == Clean(Root \o rel)                                 \* what Ge
 \* "yes": a canonically written path strictly inside the root must be accepted.
 \* "any": the property only bounds what may be accepted; a path that lies inside but is written
 \*        with "."/".."/"//" detours, or that cleans to the root itself, may be accepted or refused
-\*        -- if accepted it must be stored as RelOf(p).
+\*        -- if accepted, what is stored must resolve to Clean(p) (canonically: RelOf(p)).
 IdealAccept(a, p) == IF ~a \/ ~Inside(p) THEN "no"
                      ELSE IF StrictlyInside(p) /\ Clean(p) = p THEN "yes" ELSE "any"
 IdealRels(p) == IF StrictlyInside(p) THEN {RelOf(p)} ELSE {<<>>, <<".">>}    \* for Inside(p)
 Ideal(a, p) == [accept |-> IdealAccept(a, p),
                 rels   |-> IF a /\ Inside(p) THEN IdealRels(p) ELSE {}]
+\* a stored relative path is right when Get (Join(root, stored), lexically cleaned) opens Clean(p)
+StoredOK(p, s) == Resolve(s) = Clean(p)
 
 (* ---- the as-built Put (pinned commit) --------------------------------------------- *)
 Chars(t) == CASE t = "root"  -> <<"R">>
@@ -92,10 +94,12 @@ RelPaths == {Root \o <<"f">>, Top \o <<"base", "rootX", "f">>, <<"base", "root",
 Cases    == {[form |-> f, abs |-> TRUE, path |-> p] : f \in RootForms, p \in AbsPaths}
       \cup {[form |-> f, abs |-> FALSE, path |-> p] : f \in RootForms, p \in RelPaths}
 
-Put(f, a, p) ==
+\* Cand: the candidate stored values considered (MC: the canonical ones and an un-cleaned variant;
+\* trace validation: the value the real code stored)
+Put(f, a, p, Cand) ==
   /\ form' = f /\ abs' = a /\ path' = p
   /\ \/ /\ IdealAccept(a, p) \in {"yes", "any"}
-        /\ accepted' = TRUE /\ stored' \in IdealRels(p) /\ dev' = dev
+        /\ accepted' = TRUE /\ stored' \in {s \in Cand : StoredOK(p, s)} /\ dev' = dev
      \/ /\ IdealAccept(a, p) \in {"no", "any"}
         /\ accepted' = FALSE /\ stored' = <<>> /\ dev' = dev
      \/ /\ "Dev_C41_StringPrefix" \in Devs /\ DevApplies(f, a, p)
@@ -103,7 +107,8 @@ Put(f, a, p) ==
 
 Init == /\ done = FALSE /\ form = "clean" /\ abs = TRUE /\ path = Root \o <<"f">>
         /\ accepted = TRUE /\ stored = <<"f">> /\ dev = {}
-Next == ~done /\ done' = TRUE /\ \E c \in Cases : Put(c.form, c.abs, c.path)
+MCCand(p) == IF Inside(p) THEN IdealRels(p) \cup {RelOf(p) \o <<".">>, <<"o", "..">> \o RelOf(p), <<"..">> \o RelOf(p)} ELSE {}
+Next == ~done /\ done' = TRUE /\ \E c \in Cases : Put(c.form, c.abs, c.path, MCCand(c.path))
 Spec == Init /\ [][Next]_vars
 
 (* ---- the property ------------------------------------------------------------------ *)
@@ -112,7 +117,6 @@ AcceptedInside == accepted => abs /\ Inside(path)
 \* ... and what is stored resolves, the way Get resolves it, to that very path inside the root
 StoredResolvesInside == accepted => /\ IsPrefix(Root, Resolve(stored))
                                     /\ Resolve(stored) = Clean(path)
-                                    /\ \A i \in 1..Len(stored) : stored[i] # ".."
 \* canonical paths strictly inside are never refused (a repair must not over-reject, e.g. a file named "..x")
 InsideAccepted == (abs /\ StrictlyInside(path) /\ Clean(path) = path) => accepted
 =============================================================================
